@@ -17,8 +17,132 @@ from lib import exprs as E, exprgen as G, exprcheck as X
 
 THEOREMS = ["Claripy.Props.C08.C08_replace_leaf", "Claripy.Props.C08.C08_rename", "Claripy.Props.C08.C08_canonicalize",
             "Claripy.Props.C08.C08_ite_cases", "Claripy.Props.C08.C08_ite_dict", "Claripy.Props.C08.C08_ite_dict_median",
-            "Claripy.Props.C08.C08_excavate_step", "Claripy.Props.C08.C08_identical_vsa_route_unsound",
+            "Claripy.Props.C08.C08_excavate_step", "Claripy.Props.C08.C08_excavate_sound", "Claripy.Props.C08.C08_excavate_model_sound",
+            "Claripy.Props.C08.C08_burrow_sound", "Claripy.Props.C08.C08_burrow_unguarded_ill_typed", "Claripy.AST.applyOp_ty_congr",
+            "Claripy.AST.applyOp_strict", "Claripy.AST.eval_bool_width", "Claripy.Props.C08.C08_identical_vsa_route_unsound",
             "Claripy.Props.C08.evalCases_filter", "Claripy.Props.C08.medianKey_lt"]
+
+
+def rebuild_nary(t, memo):
+    """build a model tree through the real constructors the way ite_relocation.py does: every node in ONE constructor call
+    with all its arguments (E.build chains binary operators)"""
+    key = E.sexpr(t)
+    if key in memo:
+        return memo[key]
+    r = E.build_leaf(t)
+    if r is None:
+        args = [rebuild_nary(x, memo) for x in t[1:]]
+        if t[0] in E.BIN_INFIX and len(args) > 2:
+            r = args[0].make_like(E.BIN_INFIX[t[0]], tuple(args), simplify=True)
+        else:
+            r = E.apply_op(t[0], args)
+    memo[key] = r
+    return r
+
+
+def claripy_node(t, args):
+    """(claripy operation name, full argument tuple) of a model node"""
+    k = t[0]
+    if k in E.BIN_INFIX:
+        return E.BIN_INFIX[k], tuple(args)
+    if k in E.FUN2:
+        return E.FUN2[k], tuple(args)
+    if k.startswith("extract:"):
+        _, hi, lo = k.split(":")
+        return "Extract", (int(hi), int(lo), args[0])
+    if k.startswith("zext:"):
+        return "ZeroExt", (int(k.split(":")[1]), args[0])
+    if k.startswith("sext:"):
+        return "SignExt", (int(k.split(":")[1]), args[0])
+    return {"not": "__invert__", "neg": "__neg__", "concat": "Concat", "reverse": "Reverse", "ite": "If", "And": "And", "Or": "Or",
+            "Not": "Not"}[k], tuple(args)
+
+
+def rebuild_burrow(t, memo, like):
+    """build a model tree the way _burrow_ite does: existing sub-trees are the existing objects, a new `If` goes through claripy.If,
+    every other new node is created raw (make_like without simplification)"""
+    key = E.sexpr(t)
+    if key in memo:
+        return memo[key]
+    r = E.build_leaf(t)
+    if r is None:
+        args = [rebuild_burrow(x, memo, like) for x in t[1:]]
+        if t[0] == "ite":
+            r = claripy.If(*args)
+        else:
+            name, full = claripy_node(t, args)
+            base = next(x for x in args if isinstance(x, claripy.ast.Base))
+            r = base.make_like(name, full, length=E.width(t)) if E.width(t) is not None else base.make_like(name, full)
+    memo[key] = r
+    return r
+
+
+def ite_shape(rng):
+    """trees aimed at excavate_ite / burrow_ite: several If operands sharing a condition, its negation (syntactic or a flipped
+    comparison) or another condition; If(c, op(..a..), op(..b..)) with one / two differing operands, equal or different sizes"""
+    w = rng.choice([1, 2, 3, 4, 8])
+    x, y, z = ("bvs", "x%d" % w, w), ("bvs", "y%d" % w, w), ("bvs", "z%d" % w, w)
+
+    def cond():
+        r = rng.random()
+        if r < 0.3:
+            return ("bools", rng.choice("pq"))
+        cmp_ = rng.choice(["ult", "ule", "ugt", "uge", "slt", "sle", "sgt", "sge", "eq", "ne"])
+        return (cmp_, rng.choice([x, y]), rng.choice([z, G.const(rng, w)]))
+
+    def neg(c):
+        flip = {"ult": "uge", "uge": "ult", "ule": "ugt", "ugt": "ule", "slt": "sge", "sge": "slt", "sle": "sgt", "sgt": "sle", "eq": "ne", "ne": "eq"}
+        if c[0] in flip and rng.random() < 0.6:
+            return (flip[c[0]],) + c[1:]
+        return ("Not", c)
+
+    def val():
+        return rng.choice([x, y, z, G.const(rng, w), ("add", x, G.const(rng, w)), ("xor", y, z)])
+    c = cond()
+    kind = rng.random()
+    if kind < 0.5:
+        # excavate shapes
+        def operand():
+            r = rng.random()
+            if r < 0.35:
+                return ("ite", c, val(), val())
+            if r < 0.55:
+                return ("ite", neg(c), val(), val())
+            if r < 0.65:
+                return ("ite", cond(), val(), val())
+            if r < 0.75:
+                return ("ite", c, ("ite", rng.choice([c, cond()]), val(), val()), val())
+            return val()
+        op = rng.choice(["add", "sub", "and", "xor", "mul", "concat", "ult", "eq", "ite3"])
+        if op == "ite3":
+            return "R.excavate", ("ite", ("ult", operand(), operand()), operand(), operand())
+        n = rng.choice([2, 2, 3]) if op in ("add", "and", "xor", "mul", "concat") else 2
+        t = (op,) + tuple(operand() for _ in range(n))
+        if rng.random() < 0.3:
+            t = (rng.choice(["not", "neg"]), t) if op not in ("ult", "eq") else ("Not", t)
+        return "R.excavate", t
+    # burrow shapes
+    while c[0] == "bools":
+        c = cond()
+    op = rng.choice(["add", "sub", "and", "concat", "lshr", "zext", "extract", "add3"])
+    a, b, s = val(), val(), val()
+    if op == "add3":
+        k = rng.randrange(3)
+        ta, fa = [s, s, s], [s, s, s]
+        ta[k], fa[k] = a, b
+        if rng.random() < 0.3:
+            k2 = (k + 1) % 3
+            ta[k2], fa[k2] = b, a            # two differences: must stay
+        return "R.burrow", ("ite", c, ("add",) + tuple(ta), ("add",) + tuple(fa))
+    if op == "zext":
+        return "R.burrow", ("ite", c, ("zext:%d" % 2, ("add", a, s)), ("zext:%d" % 2, ("add", b, s)))
+    if op == "extract":
+        big = ("bvs", "u%d" % (w + 8), w + 8)
+        lo = rng.randrange(0, w)
+        return "R.burrow", ("ite", c, ("extract:%d:%d" % (w - 1, lo), ("add", a, s)), ("extract:%d:%d" % (w - 1, lo), ("add", big, ("bvv", 1, w + 8))))
+    if rng.random() < 0.5:
+        return "R.burrow", ("ite", c, (op, ("add", a, s), s), (op, ("add", b, s), s))
+    return "R.burrow", ("ite", c, (op, s, ("xor", a, s)), (op, s, ("xor", b, s)))
 
 
 def envs_for(trees, rng, limit=8, n=40):
@@ -71,13 +195,15 @@ def run(ctx):
     n = ctx.pick(1500, 25000)
     dist = collections.Counter()
     rep_lines, rep_want = [], []
+    reloc_lines, reloc_want = [], []
     can_lines, can_want = [], []
 
     def viol(sig, what, rep):
         ctx.violation(sig, what, rep)
 
     for it in range(n):
-        name, tree = G.rule_directed(rng) if rng.random() < 0.5 else G.random_tree(rng)
+        r0 = rng.random()
+        name, tree = ite_shape(rng) if r0 < 0.3 else G.rule_directed(rng) if r0 < 0.65 else G.random_tree(rng)
         a, log, e = X.build_case(tree)
         if e is not None:
             continue
@@ -99,6 +225,9 @@ def run(ctx):
                 continue
             if r is not a:
                 ctx.distinct((fn.__name__, a.hash()))
+            if len(reloc_lines) < ctx.pick(1500, 20000) and not any(x.annotations for x in [a] + list(a.children_asts())):
+                reloc_lines.append("%s %s" % ("excavate" if fn is claripy.excavate_ite else "burrow", E.sexpr(at)))
+                reloc_want.append((fn.__name__, a, r))
             env = equiv(at, rt, rng)
             if env is not None:
                 viol("C08/%s/not-equivalent" % fn.__name__, "%s(%s) = %s differs at %s" % (fn.__name__, E.sexpr(at), E.sexpr(rt), env),
@@ -290,9 +419,39 @@ def run(ctx):
                 ctx.tie_broken(tag, "%s: model %s real %s" % (l[:300], o[:300], w_[:300]))
                 break
             agree += 1
+    # excavate_ite / burrow_ite: the Lean algorithm (raw constructors) rebuilt through the real constructors must be the very
+    # object the real algorithm returned
+    reloc_stats = collections.Counter()
+    if reloc_lines:
+        outs = ctx.driver(reloc_lines)
+        for l, o, (fname, a, r) in zip(reloc_lines, outs, reloc_want):
+            if o == "bad-op":
+                reloc_stats["skipped"] += 1
+                continue
+            try:
+                mt = E.parse_sexpr(o)
+                if fname == "excavate_ite":
+                    rebuilt = rebuild_nary(mt, {})      # the real algorithm re-creates every node with simplify=True
+                else:
+                    memo = {}
+                    for sub in [a] + list(a.children_asts()):
+                        try:
+                            memo.setdefault(E.sexpr(E.from_ast(sub)), sub)
+                        except E.Unsupported:
+                            pass
+                    rebuilt = rebuild_burrow(mt, memo, a)
+            except ClaripyZeroDivisionError:
+                reloc_stats["skipped"] += 1
+                continue
+            reloc_stats[fname + (":moved" if r is not a else ":unchanged")] += 1
+            if rebuilt is not r:
+                ctx.tie_broken("corr:" + fname, "%s: model %s (rebuilt: %s) real %s" % (l[:300], o[:300], E.sexpr(E.from_ast(rebuilt))[:300],
+                                                                                       E.sexpr(E.from_ast(r))[:300]))
+                break
+            agree += 1
     ctx.cov["traces_validated_against_impl"] = agree
     ctx.cov["input_distribution"] = {"templates": dict(dist), "replace_compared": len(rep_lines), "canonicalize_compared": len(can_lines),
-                                     "ite_dict_plans_compared": len(plan_lines)}
+                                     "ite_dict_plans_compared": len(plan_lines), "ite_relocations_compared": dict(reloc_stats)}
     if rep_lines:
         ctx.sample({"request": rep_lines[0][:300], "answer": rep_want[0][:200]})
 
